@@ -32,7 +32,10 @@ ASSUMPTIONS = [
 def observe(v, doc):
     ok = v.validate(copy.deepcopy(doc))
     return (ok, canon_errors([real_error(e) for e in v._errors]), common.canon_val(common.jval(v.errors)),
-            common.canon_val(common.jval(v.document)))
+            common.canon_val(common.jval(v.document)),
+            # the schema the validator exposes and the registries it is bound to are part of what a thread can see
+            common.canon_val(common.jval(dict(v.schema))),
+            common.canon_val(common.jval(dict(v.rules_set_registry.all()))), common.canon_val(common.jval(dict(v.schema_registry.all()))))
 
 
 class Scenario(object):
@@ -102,8 +105,10 @@ def scenarios(g, rng):
         reset_process_state()
         rr = cschema.RulesSetRegistry({'R': {'type': 'integer', 'min': 2}})
         sr = cschema.SchemaRegistry({'S': {'x': 'R', 'y': {'type': 'string'}}})
-        shared = {'p': {'type': 'dict', 'schema': 'S'}, 'q': 'R'}
-        ds = [{'p': {'x': 1, 'y': 2}, 'q': 5}, {'p': {'x': 3}, 'q': 0}]
+        shared = {'p': {'type': 'dict', 'schema': 'S'}, 'q': 'R',
+                  'r': {'type': 'dict', 'schema': {'x': 'R', 'y': {'type': 'string'}}},
+                  's': {'type': 'list', 'schema': {'type': 'dict', 'schema': {'x': 'R'}}}}
+        ds = [{'p': {'x': 1, 'y': 2}, 'q': 5, 'r': {'x': 1}, 's': [{'x': 1}]}, {'p': {'x': 3}, 'q': 0, 'r': {'x': 7, 'y': 'k'}, 's': []}]
         return [lambda d=d: observe(pool.PoolValidator(shared, rules_set_registry=rr, schema_registry=sr), d) for d in ds]
     out.append(Scenario("shared-registries", registry_and_cache))
 
